@@ -479,7 +479,7 @@ structure Spec (w : Nat) where
   ptr : Int
 
 /-- One call on a tape object. -/
-inductive Op (w : Nat) where
+inductive MemOp (w : Nat) where
   | mov (d : Int)
   | read (off : Int)
   | write (off : Int) (v : BitVec w)
@@ -494,7 +494,7 @@ def zero : Spec w := { tape := fun _ => 0#w, ptr := 0 }
 
 /-- Abstract step.  `make_accessible` is a no-op, `check` has no visible effect (its result is
 deliberately unconstrained), only `read` produces an output. -/
-def apply (s : Spec w) : Op w → Spec w × Option (BitVec w)
+def apply (s : Spec w) : MemOp w → Spec w × Option (BitVec w)
   | .mov d => ({ s with ptr := s.ptr + d }, none)
   | .read off => (s, some (s.tape (s.ptr + off)))
   | .write off v => ({ s with tape := fun i => if i = s.ptr + off then v else s.tape i }, none)
@@ -502,7 +502,7 @@ def apply (s : Spec w) : Op w → Spec w × Option (BitVec w)
   | .check _ => (s, none)
 
 /-- Run a history; one output slot per call (`some v` for reads, `none` otherwise). -/
-def run (s : Spec w) : List (Op w) → Spec w × List (Option (BitVec w))
+def run (s : Spec w) : List (MemOp w) → Spec w × List (Option (BitVec w))
   | [] => (s, [])
   | op :: ops =>
     let r := s.apply op
@@ -515,7 +515,7 @@ namespace Mem
 variable {w : Nat}
 
 /-- Concrete step on the model of `Memory`. -/
-def apply (m : Mem w) : Op w → Mem w × Option (BitVec w)
+def apply (m : Mem w) : MemOp w → Mem w × Option (BitVec w)
   | .mov d => (m.mov d, none)
   | .read off => (m, some (m.read off))
   | .write off v => (m.write off v, none)
@@ -523,7 +523,7 @@ def apply (m : Mem w) : Op w → Mem w × Option (BitVec w)
   | .check _ => (m, none)
 
 /-- Run a history on the model; one output slot per call. -/
-def run (m : Mem w) : List (Op w) → Mem w × List (Option (BitVec w))
+def run (m : Mem w) : List (MemOp w) → Mem w × List (Option (BitVec w))
   | [] => (m, [])
   | op :: ops =>
     let r := m.apply op
@@ -531,27 +531,27 @@ def run (m : Mem w) : List (Op w) → Mem w × List (Option (BitVec w))
     (rs.1, r.2 :: rs.2)
 
 /-- Range guard on the arguments of one call. -/
-def ArgGuard : Op w → Prop
+def ArgGuard : MemOp w → Prop
   | .mov d => SmallArg d
   | .read off => SmallArg off
   | .write off _ => SmallArg off
   | .makeAccessible a b => SmallArg a ∧ SmallArg b
   | .check off => SmallArg off
 
-instance (op : Op w) : Decidable (ArgGuard op) := by
+instance (op : MemOp w) : Decidable (ArgGuard op) := by
   cases op <;> unfold ArgGuard <;> infer_instance
 
 /-- Range guard for one step: state and arguments below `2^59`. -/
-def Guard (m : Mem w) (op : Op w) : Prop := Small m ∧ ArgGuard op
+def Guard (m : Mem w) (op : MemOp w) : Prop := Small m ∧ ArgGuard op
 
-instance (m : Mem w) (op : Op w) : Decidable (Guard m op) := by unfold Guard; infer_instance
+instance (m : Mem w) (op : MemOp w) : Decidable (Guard m op) := by unfold Guard; infer_instance
 
 /-- The range guard holds at every intermediate state of the concrete run. -/
-def GuardAll (m : Mem w) : List (Op w) → Prop
+def GuardAll (m : Mem w) : List (MemOp w) → Prop
   | [] => True
   | op :: ops => Guard m op ∧ GuardAll (m.apply op).1 ops
 
-instance decGuardAll : (m : Mem w) → (ops : List (Op w)) → Decidable (GuardAll m ops)
+instance decGuardAll : (m : Mem w) → (ops : List (MemOp w)) → Decidable (GuardAll m ops)
   | _, [] => isTrue trivial
   | m, op :: ops =>
     have := decGuardAll (m.apply op).1 ops
@@ -572,7 +572,7 @@ theorem small_new : Small (Mem.new : Mem w) := by
   unfold Small new asI64 two63 bound; simp
 
 /-- One step of the refinement. -/
-theorem step_refines {m : Mem w} {s : Spec w} (op : Op w) (hwf : WF m) (habs : Abs m s)
+theorem step_refines {m : Mem w} {s : Spec w} (op : MemOp w) (hwf : WF m) (habs : Abs m s)
     (hg : Guard m op) :
     (m.apply op).2 = (s.apply op).2 ∧ Abs (m.apply op).1 (s.apply op).1 ∧ WF (m.apply op).1 := by
   obtain ⟨hs, ha⟩ := hg
@@ -607,7 +607,7 @@ theorem step_refines {m : Mem w} {s : Spec w} (op : Op w) (hwf : WF m) (habs : A
     rw [makeAccessible_cell' hwf hs a1' a2' b1' b2', habs]
   | check off => exact ⟨rfl, habs, hwf⟩
 
-theorem history_refines' (ops : List (Op w)) (m : Mem w) (s : Spec w)
+theorem history_refines' (ops : List (MemOp w)) (m : Mem w) (s : Spec w)
     (hwf : WF m) (habs : Abs m s) (hg : GuardAll m ops) :
     (m.run ops).2 = (s.run ops).2 ∧ Abs (m.run ops).1 (s.run ops).1 ∧ WF (m.run ops).1 := by
   induction ops generalizing m s with
@@ -620,7 +620,7 @@ theorem history_refines' (ops : List (Op w)) (m : Mem w) (s : Spec w)
     show (m.apply op).2 :: ((m.apply op).1.run ops).2 = (s.apply op).2 :: ((s.apply op).1.run ops).2
     rw [e, e']
 
-theorem run_append (m : Mem w) (xs ys : List (Op w)) :
+theorem run_append (m : Mem w) (xs ys : List (MemOp w)) :
     m.run (xs ++ ys) = ((m.run xs).1.run ys |>.1, (m.run xs).2 ++ ((m.run xs).1.run ys).2) := by
   induction xs generalizing m with
   | nil => rfl
@@ -629,7 +629,7 @@ theorem run_append (m : Mem w) (xs ys : List (Op w)) :
     rw [ih]
     rfl
 
-theorem run_length (m : Mem w) (ops : List (Op w)) : (m.run ops).2.length = ops.length := by
+theorem run_length (m : Mem w) (ops : List (MemOp w)) : (m.run ops).2.length = ops.length := by
   induction ops generalizing m with
   | nil => rfl
   | cons op ops ih =>
@@ -637,7 +637,7 @@ theorem run_length (m : Mem w) (ops : List (Op w)) : (m.run ops).2.length = ops.
     rw [ih]
 
 /-- Outputs of a prefix of the history do not depend on what comes later. -/
-theorem run_prefix_out (m : Mem w) (xs ys : List (Op w)) (i : Nat) (hi : i < xs.length) :
+theorem run_prefix_out (m : Mem w) (xs ys : List (MemOp w)) (i : Nat) (hi : i < xs.length) :
     (m.run (xs ++ ys)).2[i]? = (m.run xs).2[i]? := by
   rw [run_append]
   simp only
@@ -647,18 +647,18 @@ end Mem
 
 /-! ### "most recently written value, 0 if never written", stated on the history itself -/
 
-namespace Op
+namespace MemOp
 variable {w : Nat}
 
 /-- Logical pointer position after a history that started at position `p`. -/
-def ptrAfter (p : Int) : List (Op w) → Int
+def ptrAfter (p : Int) : List (MemOp w) → Int
   | [] => p
   | .mov d :: ops => ptrAfter (p + d) ops
   | _ :: ops => ptrAfter p ops
 
 /-- The value most recently written to logical position `pos` by a history that started with the
 pointer at `p`; `none` if the history never wrote to `pos`. -/
-def lastWrite (p : Int) (pos : Int) : List (Op w) → Option (BitVec w)
+def lastWrite (p : Int) (pos : Int) : List (MemOp w) → Option (BitVec w)
   | [] => none
   | .mov d :: ops => lastWrite (p + d) pos ops
   | .write off v :: ops =>
@@ -667,18 +667,18 @@ def lastWrite (p : Int) (pos : Int) : List (Op w) → Option (BitVec w)
     | none => if pos = p + off then some v else none
   | _ :: ops => lastWrite p pos ops
 
-theorem lastWrite_write (p pos off : Int) (v : BitVec w) (ops : List (Op w)) :
+theorem lastWrite_write (p pos off : Int) (v : BitVec w) (ops : List (MemOp w)) :
     lastWrite p pos (.write off v :: ops) =
       match lastWrite p pos ops with
       | some v' => some v'
       | none => if pos = p + off then some v else none := rfl
 
-end Op
+end MemOp
 
 namespace Spec
 variable {w : Nat}
 
-theorem run_ptr (s : Spec w) (ops : List (Op w)) : (s.run ops).1.ptr = Op.ptrAfter s.ptr ops := by
+theorem run_ptr (s : Spec w) (ops : List (MemOp w)) : (s.run ops).1.ptr = MemOp.ptrAfter s.ptr ops := by
   induction ops generalizing s with
   | nil => rfl
   | cons op ops ih =>
@@ -686,8 +686,8 @@ theorem run_ptr (s : Spec w) (ops : List (Op w)) : (s.run ops).1.ptr = Op.ptrAft
     rw [ih]
     cases op <;> rfl
 
-theorem run_tape (s : Spec w) (ops : List (Op w)) (pos : Int) :
-    (s.run ops).1.tape pos = (Op.lastWrite s.ptr pos ops).getD (s.tape pos) := by
+theorem run_tape (s : Spec w) (ops : List (MemOp w)) (pos : Int) :
+    (s.run ops).1.tape pos = (MemOp.lastWrite s.ptr pos ops).getD (s.tape pos) := by
   induction ops generalizing s with
   | nil => rfl
   | cons op ops ih =>
@@ -695,14 +695,14 @@ theorem run_tape (s : Spec w) (ops : List (Op w)) (pos : Int) :
     rw [ih]
     cases op with
     | write off v =>
-      show (Op.lastWrite s.ptr pos ops).getD (if pos = s.ptr + off then v else s.tape pos) = _
-      rw [Op.lastWrite_write]
-      cases Op.lastWrite s.ptr pos ops with
+      show (MemOp.lastWrite s.ptr pos ops).getD (if pos = s.ptr + off then v else s.tape pos) = _
+      rw [MemOp.lastWrite_write]
+      cases MemOp.lastWrite s.ptr pos ops with
       | some v' => rfl
       | none => by_cases e : pos = s.ptr + off <;> simp [e]
     | _ => rfl
 
-theorem run_append (s : Spec w) (xs ys : List (Op w)) :
+theorem run_append (s : Spec w) (xs ys : List (MemOp w)) :
     s.run (xs ++ ys) = ((s.run xs).1.run ys |>.1, (s.run xs).2 ++ ((s.run xs).1.run ys).2) := by
   induction xs generalizing s with
   | nil => rfl
@@ -711,7 +711,7 @@ theorem run_append (s : Spec w) (xs ys : List (Op w)) :
     rw [ih]
     rfl
 
-theorem run_length (s : Spec w) (ops : List (Op w)) : (s.run ops).2.length = ops.length := by
+theorem run_length (s : Spec w) (ops : List (MemOp w)) : (s.run ops).2.length = ops.length := by
   induction ops generalizing s with
   | nil => rfl
   | cons op ops ih =>
@@ -720,9 +720,9 @@ theorem run_length (s : Spec w) (ops : List (Op w)) : (s.run ops).2.length = ops
 
 /-- In the abstract run from the zero tape, the read that follows the prefix `pre` returns the
 value most recently written to its logical position, `0` if never written. -/
-theorem run_read_out (pre post : List (Op w)) (off : Int) :
-    ((Spec.zero : Spec w).run (pre ++ Op.read off :: post)).2[pre.length]? =
-      some (some ((Op.lastWrite 0 (Op.ptrAfter 0 pre + off) pre).getD 0#w)) := by
+theorem run_read_out (pre post : List (MemOp w)) (off : Int) :
+    ((Spec.zero : Spec w).run (pre ++ MemOp.read off :: post)).2[pre.length]? =
+      some (some ((MemOp.lastWrite 0 (MemOp.ptrAfter 0 pre + off) pre).getD 0#w)) := by
   rw [run_append]
   simp only
   rw [List.getElem?_append_right (by rw [run_length]; exact Nat.le_refl _), run_length,
